@@ -1088,6 +1088,22 @@ func c09All(c *Check, P string, r *RouterRoles2) {
 			"a handler's publisher and subscriber are decorated only when the handler is started (a later RunHandlers call must not wrap them again)")
 	}
 	c.Floor(P+".O2", "decorate calls in RunHandlers", ndec, 2)
+	// … and a decorated handler is started in the same pass: no path leads from a decorate call round the loop to the same
+	// call again without the started flag having been raised (handlers decorated in a first loop and started in a second one are
+	// decorated again by the next RunHandlers call when a Subscribe in between failed)
+	if r.HStarted != nil {
+		var raised []ssa.Instruction
+		for _, st := range FieldStores(r.RunHandlers, r.HStarted) {
+			raised = append(raised, st)
+		}
+		for _, cl := range CallsIn(r.RunHandlers) {
+			cal := CalleeFn(cl.Common())
+			if cal == nil || cal.Pkg != r.RunHandlers.Pkg || len(FieldStores(cal, r.HPub))+len(FieldStores(cal, r.HSub)) == 0 || cl.Parent() != r.RunHandlers {
+				continue
+			}
+			c.Report(len(raised) > 0 && !ReachWithout(cl, cl, raised...), P+".O2", "DECORATED-AND-STARTED-IN-ONE-PASS", r.RunHandlers, cl.Pos(), "decorate call", "from a decorate call the loop comes back to it only past the store that marks the handler started: decoration and start belong to one iteration")
+		}
+	}
 	// decorators
 	for _, fn := range r.Funcs {
 		if fn.Parent() != nil || fn.Signature.Recv() == nil || NamedOf(fn.Signature.Recv().Type()) != r.R {
@@ -1096,6 +1112,28 @@ func c09All(c *Check, P string, r *RouterRoles2) {
 		for _, w := range FindWrapLoops(fn) {
 			if w.Slice == nil {
 				continue
+			}
+			if AllOrigins(w.Slice, IsFieldLoad(pdF)) || AllOrigins(w.Slice, IsFieldLoad(sdF)) {
+				// a decorator that cannot be applied fails the start: on its error edge the function does not go on to the next
+				// decorator and returns the failure (a skipped decorator — signing, metrics, envelopes — changes what the handler does)
+				if w.Call.Common().Signature().Results().Len() == 2 {
+					_, fail := NilEdges(fn, func(v ssa.Value) bool { return isExtractIdx(v, w.Call, 1) })
+					c.Floor(P+".O2", "test of the decorator's error", len(fail), 1)
+					for _, e := range fail {
+						re := ReachEdge(e, nil)
+						okF := !re[w.Call]
+						for _, ret := range Returns(fn) {
+							if re[ret] && !KnownNonNilAt(fn, ret, ret.Results[len(ret.Results)-1]) {
+								for _, v := range RetOrigins(ret, len(ret.Results)-1) {
+									if !ProvablyNonNil(v, func(x ssa.Value) bool { return isExtractIdx(x, w.Call, 1) }) {
+										okF = false
+									}
+								}
+							}
+						}
+						c.Report(okF, P+".O2", "DECORATOR-FAILURE-FAILS-THE-START", fn, w.Call.Pos(), "decorator error edge", "when a decorator returns an error the decorate function returns it (wrapped): it neither skips the decorator nor goes on with the rest of the chain")
+					}
+				}
 			}
 			switch {
 			case AllOrigins(w.Slice, IsFieldLoad(pdF)):
@@ -1390,6 +1428,34 @@ func c10Lifecycle(c *Check, P string, r *RouterRoles2) {
 	c10RouterSafety(c, P, r)
 	c10CloseSignals(c, P, r)
 	Run, RH := r.Run, r.RunHandlers
+	// the goroutine that closes the router once every handler has stopped is started by every Run, whatever is registered
+	// at that moment (handlers may be added to a running router; when they end the router must still close itself)
+	if r.SelfClose != nil {
+		W := outermost(r.SelfClose)
+		var wcalls []ssa.CallInstruction
+		if W != Run {
+			wcalls = Callers([]*ssa.Function{Run}, W)
+		}
+		if W == Run || c.Floor(P+".O3", "start of the all-handlers-stopped watcher in Run", len(wcalls), 1) {
+			for _, rh := range Callers([]*ssa.Function{Run}, RH) {
+				okW := W == Run
+				for _, wc := range wcalls {
+					if Dominates(Run, wc, rh) {
+						okW = true
+					}
+				}
+				if W == Run {
+					okW = false
+					AllInstrs(Run, func(in ssa.Instruction) {
+						if g, isGo := in.(*ssa.Go); isGo && FuncOfValue(g.Call.Value) == r.SelfClose && Dominates(Run, g, rh) {
+							okW = true
+						}
+					})
+				}
+				c.Report(okW, P+".O3", "SELF-CLOSE-WATCHER-ALWAYS-STARTED", Run, rh.Pos(), "RunHandlers call in Run", "every path of Run to the start of the handlers has started the watcher that closes the router when all handlers stopped (also a router started without handlers)")
+			}
+		}
+	}
 	// O1
 	rhCalls := Callers([]*ssa.Function{Run}, RH)
 	if c.Floor(P+".O1", "RunHandlers call in Run", len(rhCalls), 1) {
@@ -1931,4 +1997,12 @@ func (r *RouterRoles2) isFieldOrItsValue(f *types.Var) func(ssa.Value) bool {
 func isEntryGuardReturn(fn *ssa.Function, ret *ssa.Return) bool {
 	b := ret.Block()
 	return len(b.Preds) == 1 && b.Preds[0] == fn.Blocks[0]
+}
+
+// isExtractIdx: v is result #idx of the call c.
+func isExtractIdx(v ssa.Value, c ssa.CallInstruction, idx int) bool {
+	return AllOrigins(v, func(o ssa.Value) bool {
+		e, ok := o.(*ssa.Extract)
+		return ok && e.Tuple == CallValue(c) && e.Index == idx
+	})
 }
